@@ -211,4 +211,3 @@ func (c *cfacts) assignedIn(n ast.Node, lhs, where string) ast.Expr {
 	}
 	return out[0]
 }
-
